@@ -35,6 +35,10 @@ const livenessBound = 30 * time.Second
 // run inconclusive, never a violation.
 const settleBound = 20 * time.Second
 
+// hangBound is the bounded restatement of "every request of a burst is either
+// answered or dropped once nothing holds it back any more" (normal: milliseconds).
+const hangBound = 60 * time.Second
+
 type pending struct {
 	done  chan struct{}
 	start time.Time
@@ -112,11 +116,23 @@ type guard struct {
 	mu      sync.Mutex
 	strikes int
 	skipped int
+	init    bool
+	viol0   int
 }
 
 func (g *guard) run(fn func()) {
 	g.mu.Lock()
-	if g.strikes >= 2 {
+	if !g.init {
+		g.init, g.viol0 = true, g.r.Violations()
+	}
+	// the rest of a phase is given up only once the slow cases have produced
+	// a verdict (a violation was reported in this phase); slow cases without a
+	// verdict get more patience before the phase is declared inconclusive
+	limit := 6
+	if g.r.Violations() > g.viol0 {
+		limit = 2
+	}
+	if g.strikes >= limit {
 		g.skipped++
 		g.mu.Unlock()
 		return
@@ -175,12 +191,16 @@ func runC18(r *mon.Run, replay string) {
 	}
 
 	phaseLimits(r)
+	phaseDropLeak(r)
 	phaseStall(r)
 	phaseCaps(r)
 	phaseShutdown(r)
+	phaseSyncStalls(r)
 	join := startDeadlockScenarios(r)
 	phaseRHP(r)
+	phaseRHPStalls(r)
 	phaseWallet(r)
+	phaseWalletImmediate(r)
 	phaseTG(r)
 	join()
 	finalInventory(r)
@@ -189,6 +209,7 @@ func runC18(r *mon.Run, replay string) {
 	r.Floor("limit.backpressure_bursts", 3)
 	r.Floor("limit.subnet_drop_bursts", 1)
 	r.Floor("limit.fresh_burst_reached_full_limit", 5)
+	r.Floor("dropleak.final_bursts_served_completely", 3)
 	r.Floor("caps.inbound_attempted", 20)
 	r.Floor("caps.outbound_candidates", 8)
 	r.Floor("shutdown.close_calls", 10)
@@ -196,6 +217,8 @@ func runC18(r *mon.Run, replay string) {
 	r.Floor("rhp.close_calls", 4)
 	r.Floor("rhp.handlers_parked_at_close", 4)
 	r.Floor("wallet.close_calls", 4)
+	r.Floor("rhpstall.streams_stalled", 10)
+	r.Floor("syncstall.stalls", 10)
 	r.Floor("tg.stop_calls", 20)
 	r.Floor("tg.adds_ok", 500)
 }
@@ -237,6 +260,10 @@ func runReplay(r *mon.Run, path string) {
 			var c LimitCase
 			json.Unmarshal(h.Case, &c)
 			runLimitCase(r, c)
+		case "subnet-drop-leak":
+			var c DropLeakCase
+			json.Unmarshal(h.Case, &c)
+			runDropLeakCase(r, c)
 		case "stall":
 			var c StallCase
 			json.Unmarshal(h.Case, &c)
@@ -265,6 +292,18 @@ func runReplay(r *mon.Run, path string) {
 			var c WalletCase
 			json.Unmarshal(h.Case, &c)
 			runWalletCase(r, c)
+		case "rhp-stall":
+			var c RHPStallCase
+			json.Unmarshal(h.Case, &c)
+			runRHPStallCase(r, c)
+		case "syncer-stall":
+			var c SyncStallCase
+			json.Unmarshal(h.Case, &c)
+			runSyncStallCase(r, c)
+		case "wallet-immediate":
+			var c WalletImmediateCase
+			json.Unmarshal(h.Case, &c)
+			runWalletImmediate(r, c)
 		case "tg":
 			var c TGCase
 			json.Unmarshal(h.Case, &c)
